@@ -1,6 +1,7 @@
 package harness
 
 import (
+	"sync/atomic"
 	"bufio"
 	"encoding/json"
 	"fmt"
@@ -206,10 +207,12 @@ func (m *runMonitor) watch(a *workerArgs, out *workerOut, finish func()) {
 
 var monitor runMonitor
 
-// enumDeadline truncates long per-run enumerations (zero = no limit, e.g. replay).
-var enumDeadline time.Time
+// enumExpired truncates long per-run enumerations once the batch budget is
+// used up. It is set by a timer goroutine outside the synctest bubbles (inside
+// a bubble time.Now is the fake clock). Never set in replay mode.
+var enumExpired atomic.Bool
 
-func outOfTime() bool { return !enumDeadline.IsZero() && time.Now().After(enumDeadline) }
+func outOfTime() bool { return enumExpired.Load() }
 
 func workerBatch(t *testing.T, a *workerArgs, out *workerOut, start time.Time) {
 	known := loadKnown()
@@ -220,7 +223,10 @@ func workerBatch(t *testing.T, a *workerArgs, out *workerOut, start time.Time) {
 	// enumerations inside one run (crash images, header damage) stop shortly
 	// after the batch budget is used up; the run counts with what it evaluated
 	if a.MaxRuns == 0 {
-		enumDeadline = deadline.Add(5 * time.Second)
+		go func() {
+			time.Sleep(time.Until(deadline.Add(3 * time.Second)))
+			enumExpired.Store(true)
+		}()
 	}
 	for i := 0; ; i++ {
 		if a.MaxRuns > 0 && i >= a.MaxRuns {
